@@ -1,6 +1,7 @@
 /-
 Loop invariant of the Jolt GJK distance loop (C01) with abstract support points and a solver
-specification: `Stored` (Y = P − Q, P ⊆ A, Q ⊆ B on the valid prefix), `Closest` (the current
+specification (`SolverSpec`, and `SolverSpecOn good` = the same contract required only on the
+simplices satisfying `good`): `Stored` (Y = P − Q, P ⊆ A, Q ⊆ B on the valid prefix), `Closest` (the current
 point is the min-norm point of the hull of the stored points, with positive weights), and what
 holds on each exit of one call of `distanceLoopStep`.
 -/
@@ -23,6 +24,33 @@ structure SolverSpec (solve : Solver ℝ) : Prop where
       r.vLenSq = V3.normSq r.v ∧ (r.success = true ↔ r.vLenSq < prev) ∧ r.set < 2 ^ n ∧
       IsMinNorm (InHull (Y.pre n)) r.v ∧ InRelInt (keep r.set 0 (Y.pre n)) r.v ∧
       (r.set = 15 → r.v = zeroV)
+
+/-- **the solver contract relative to a predicate `good Y n`** on the simplices handed to the
+solver (`Y` the array, `n` the number of valid points): the conjuncts of `SolverSpec` are only
+required on good simplices.  `SolverSpec` is the instance `good := fun _ _ => True`
+(`solverSpec_iff_on_true`); the model of the real solver satisfies the contract on `JoltGood`,
+the conjunction of the C18 band exclusions (`D3.Gjk.joltSolver_spec`). -/
+structure SolverSpecOn (good : A4 V → Nat → Prop) (solve : Solver ℝ) : Prop where
+  spec : ∀ (Y : A4 V) (n : Nat) (prev : ℝ) (r : SolveOut ℝ), 1 ≤ n → n ≤ 4 → good Y n →
+    solve Y n prev = .ok r →
+      r.vLenSq = V3.normSq r.v ∧ (r.success = true ↔ r.vLenSq < prev) ∧ r.set < 2 ^ n ∧
+      IsMinNorm (InHull (Y.pre n)) r.v ∧ InRelInt (keep r.set 0 (Y.pre n)) r.v ∧
+      (r.set = 15 → r.v = zeroV)
+
+/-- the unconditional contract implies the contract on every predicate -/
+theorem SolverSpec.on {solve : Solver ℝ} (h : SolverSpec solve) (good : A4 V → Nat → Prop) :
+    SolverSpecOn good solve :=
+  ⟨fun Y n prev r h1 h4 _ hr => h.spec Y n prev r h1 h4 hr⟩
+
+theorem solverSpec_iff_on_true {solve : Solver ℝ} :
+    SolverSpec solve ↔ SolverSpecOn (fun _ _ => True) solve :=
+  ⟨fun h => h.on _, fun h => ⟨fun Y n prev r h1 h4 hr => h.spec Y n prev r h1 h4 trivial hr⟩⟩
+
+/-- a contract on `good` is a contract on every stronger predicate -/
+theorem SolverSpecOn.mono {good good' : A4 V → Nat → Prop} {solve : Solver ℝ}
+    (h : SolverSpecOn good solve) (hsub : ∀ Y n, good' Y n → good Y n) :
+    SolverSpecOn good' solve :=
+  ⟨fun Y n prev r h1 h4 hg hr => h.spec Y n prev r h1 h4 (hsub Y n hg) hr⟩
 
 /-- the stored points: `Yᵢ = Pᵢ − Qᵢ`, `Pᵢ ∈ A`, `Qᵢ ∈ B` for `i < n` -/
 structure StoredArr (A B : V → Prop) (Y P Q : A4 V) (n : Nat) : Prop where
@@ -200,10 +228,13 @@ theorem neg_one_neg_one_smul (a : V) : (-1 : ℝ) * ((-1 : ℝ) * a) = a := by
 theorem two_pow_le_16 {n : Nat} (hn : n ≤ 4) : 2 ^ n ≤ 16 := by
   interval_cases n <;> norm_num
 
-/-- **(1) the loop invariant is preserved, and (2)/(5)/(6) raw material for every exit** -/
-theorem step_inv {A B : V → Prop} {solve : Solver ℝ} (hsolve : SolverSpec solve)
+/-- **(1) the loop invariant is preserved, and (2)/(5)/(6) raw material for every exit**
+(the simplex handed to the solver in this call is `good`) -/
+theorem step_inv {A B : V → Prop} {good : A4 V → Nat → Prop} {solve : Solver ℝ}
+    (hsolve : SolverSpecOn good solve)
     {st : State ℝ} {p q : V} {tolSq maxD : ℝ} (htol : 0 ≤ tolSq)
     (hst : Stored A B st 3) (hrun : Running tolSq st (p - q)) (hp : A p) (hq : B q)
+    (hgood : ∀ Y1, st.Y.set st.nPoints (p - q) = .ok Y1 → good Y1 (st.nPoints + 1))
     {out : StepOut ℝ} (h : distanceLoopStep solve p q st tolSq maxD = .ok out)
     (hnc : out.gs ≠ .clipped) : ∃ x v', StepInv A B tolSq st (p - q) out x v' := by
   rcases step_cases h with ⟨_, rfl⟩ | ⟨_, Y1, P1, Q1, r, hY, hP, hQ, hr, hcase⟩
@@ -212,7 +243,7 @@ theorem step_inv {A B : V → Prop} {solve : Solver ℝ} (hsolve : SolverSpec so
   obtain ⟨_, hst1, eY1, eY1n, eP1n, eQ1n⟩ :=
     storedArr_set hstored (by omega) hp hq hY hP hQ
   obtain ⟨hvl, hsucc, hset, hmin, hrel, h15⟩ :=
-    hsolve.spec Y1 (st.nPoints + 1) st.prevVLenSq r (by omega) (by omega) hr
+    hsolve.spec Y1 (st.nPoints + 1) st.prevVLenSq r (by omega) (by omega) (hgood Y1 hY) hr
   have hset16 : r.set < 16 := lt_of_lt_of_le hset (two_pow_le_16 (by omega))
   rw [eY1] at hmin
   rcases hcase with ⟨hs, ht⟩ | ⟨hs, ht⟩
